@@ -297,6 +297,20 @@ def verify_commutative_loop(crate, fn, bi, t, rep, rid, src):
             continue
         if all(not any(rb in fn.reachable(e, without_blocks=(sb,)) for rb in fn.return_blocks()) for e in exits):
             ok = True
+    # ... and nothing else may look at graph.errors in hash order: after the loop the sort comes first
+    for b, tt in fn.calls():
+        if b in body or not SORT.search(fn.callee_name(tt)) and True:
+            pass
+    sort_blocks = [sb for sb, _tt in sorts if sb not in body]
+    for b, tt in fn.calls():
+        if b in body or b in sort_blocks:
+            continue
+        uses_errors = any((origin_container(fn, a) or ('', 0, ''))[-1] == 'errors' for a in tt['args'] if op_place(a))
+        if uses_errors and any(b in fn.reachable(e) for e in exits) and not any(fn.dominates_block(sb, b) for sb in sort_blocks):
+            nm = fn.callee_name(tt)
+            if re.search(r'vec::Vec::<T, A>::push$|as std::ops::Deref(Mut)?>::deref(_mut)?$', nm):
+                continue
+            rep.viol(rid, 'commutative-loop:%s:errors-used-before-sort:%s' % (fn.name, re.sub(r'<[^<>]*>', '', nm).split('::')[-1]), 'graph.errors (filled in hash order) is handed to %s before it is sorted' % nm, loc(fn, tt['line']))
     if not ok:
         rep.viol(rid, 'commutative-loop:%s:errors-unsorted' % fn.name, 'graph.errors is pushed in hash order inside the loop and no sort of it separates the loop from the return', loc(fn, t['line']))
     # (c) add_back_edge is search-then-insert
